@@ -114,7 +114,12 @@ def finish_case(path):
     par = []
     for l in range(len(L) - 1):
         try:
-            par.append(parents(L[l], L[l + 1], fam, dim))
+            if "adapt" in case:
+                # RootMeshNode::refine_unique(AdaptMode) (harness/c10_adapt.cpp): the certificate relates a level to its
+                # UNADAPTED refinement (adaption moves vertices away from the barycentres)
+                par.append(parents(L[l], case["adapt"]["none"][l], fam, dim))
+            else:
+                par.append(parents(L[l], L[l + 1], fam, dim))
         except (IndexError, KeyError, TypeError):
             par.append([])
     case["par"] = par
